@@ -334,8 +334,12 @@ def main(argv: Optional[List[str]] = None) -> int:
             if c_eval >= 40 and not fails:
                 for cls, floor in camp.required_classes.items():
                     frac = c_classes.get(cls, 0) / c_eval
-                    if frac < floor:
-                        errors.append(f"[{camp.name}] generator lost coverage: class {cls!r} in {frac:.3f} of cases (< {floor})")
+                    # the floor bounds the generator's *rate*; an observed fraction may fall short of it by sampling noise
+                    # (three binomial standard deviations) without the generator having changed
+                    slack = 3.0 * (floor * (1.0 - floor) / c_eval) ** 0.5
+                    if frac < floor - slack:
+                        errors.append(f"[{camp.name}] generator lost coverage: class {cls!r} in {frac:.3f} of cases "
+                                      f"(< {floor} - {slack:.3f})")
     except Exception as e:  # noqa: BLE001
         errors.append("".join(traceback.format_exception(type(e), e, e.__traceback__))[-6000:])
     finally:
